@@ -17,20 +17,7 @@ use vlib::{ck, Pat, Z};
 const QUICK: u32 = 800;
 const FACTOR: u32 = 20;
 
-pub trait NT:
-    Int + Integer + Roots + PrimInt + Euclid + CheckedEuclid + Bounded + Zero + One + Num + Pow<u32, Output = Self> + MulAdd<Output = Self> + MulAddAssign
-    + CheckedAdd + CheckedSub + CheckedMul + CheckedDiv + CheckedRem + CheckedNeg + CheckedShl + CheckedShr
-    + WrappingAdd + WrappingSub + WrappingMul + WrappingNeg + WrappingShl + WrappingShr
-    + Saturating + SaturatingAdd + SaturatingSub + SaturatingMul + OverflowingAdd + OverflowingSub
-{
-}
-impl<T> NT for T where
-    T: Int + Integer + Roots + PrimInt + Euclid + CheckedEuclid + Bounded + Zero + One + Num + Pow<u32, Output = T> + MulAdd<Output = T> + MulAddAssign
-        + CheckedAdd + CheckedSub + CheckedMul + CheckedDiv + CheckedRem + CheckedNeg + CheckedShl + CheckedShr
-        + WrappingAdd + WrappingSub + WrappingMul + WrappingNeg + WrappingShl + WrappingShr
-        + Saturating + SaturatingAdd + SaturatingSub + SaturatingMul + OverflowingAdd + OverflowingSub
-{
-}
+use checks::siblings::{forwarder_cases, Group, NT};
 
 fn ret<T: Int>(z: &Z) -> Outcome<Pat> {
     Outcome::Returned(pz::<T>(z))
@@ -243,63 +230,7 @@ fn eval_signed<I: NT + SInt + Signed>(c: &(Pat, Pat), obs: &mut Obs) -> Result<(
 
 /// PrimInt incl. signed_/unsigned_ shifts, Bounded, Zero/One, Num, Pow, MulAdd, forwarders = inherent methods
 fn eval_forwarders<T: NT>(c: &(Pat, Pat, Pat, u32), obs: &mut Obs) -> Result<(), String> {
-    let (a, b, k): (T, T, T) = (ld(&c.0), ld(&c.1), ld(&c.2));
-    let s = c.3 % T::W;
-    let e = c.3 % 40;
-    obs.nt();
-    let w = T::W as u64;
-    // shifts: signed_shr is arithmetic on the pattern, unsigned_shr is logical, for U and I alike
-    let zs = Z::from_le_signed(&c.0 .0);
-    let zu = Z::from_le_unsigned(&c.0 .0);
-    ck!("PrimInt::signed_shr", oc(|| PrimInt::signed_shr(a, s)), ret::<T>(&zs.shr_floor(s as u64)));
-    ck!("PrimInt::unsigned_shr", oc(|| PrimInt::unsigned_shr(a, s)), ret::<T>(&zu.shr_floor(s as u64)));
-    ck!("PrimInt::signed_shl", oc(|| PrimInt::signed_shl(a, s)), ret::<T>(&zu.shl(s as u64)));
-    ck!("PrimInt::unsigned_shl", oc(|| PrimInt::unsigned_shl(a, s)), ret::<T>(&zu.shl(s as u64)));
-    ck!("PrimInt counts", (PrimInt::count_ones(a), PrimInt::count_zeros(a), PrimInt::leading_zeros(a), PrimInt::trailing_zeros(a), PrimInt::leading_ones(a), PrimInt::trailing_ones(a)),
-        (Int::count_ones(a), Int::count_zeros(a), Int::leading_zeros(a), Int::trailing_zeros(a), Int::leading_ones(a), Int::trailing_ones(a)));
-    ck!("PrimInt::rotate_left", st(&PrimInt::rotate_left(a, c.3)), st(&Int::rotate_left(a, c.3)));
-    ck!("PrimInt::rotate_right", st(&PrimInt::rotate_right(a, c.3)), st(&Int::rotate_right(a, c.3)));
-    ck!("PrimInt::swap_bytes", st(&PrimInt::swap_bytes(a)), st(&Int::swap_bytes(a)));
-    ck!("PrimInt::reverse_bits", st(&PrimInt::reverse_bits(a)), st(&Int::reverse_bits(a)));
-    ck!("PrimInt::to_be/to_le/from_be/from_le", (st(&PrimInt::to_be(a)), st(&PrimInt::to_le(a)), st(&<T as PrimInt>::from_be(a)), st(&<T as PrimInt>::from_le(a))), (st(&Int::to_be(a)), st(&Int::to_le(a)), st(&<T as Int>::from_be(a)), st(&<T as Int>::from_le(a))));
-    ck!("PrimInt::pow", oc(|| PrimInt::pow(a, e)), oc(|| Int::pow(a, e)));
-    ck!("Pow<u32>", oc(|| Pow::pow(a, e)), oc(|| Int::pow(a, e)));
-    ck!("Bounded", (st(&T::min_value()), st(&T::max_value())), (pz::<T>(&zmin::<T>()), pz::<T>(&zmax::<T>())));
-    ck!("Zero/One", (st(&<T as Zero>::zero()), st(&<T as One>::one()), Zero::is_zero(&a), One::is_one(&a)), (pz::<T>(&Z::zero()), pz::<T>(&Z::one()), a.z().is_zero(), a.z() == Z::one()));
-    let text = a.to_str_radix(2 + c.3 % 35);
-    ck!("Num::from_str_radix", <T as Num>::from_str_radix(&text, 2 + c.3 % 35).ok().map(|v| st(&v)), Some(c.0.clone()));
-    ck!("Num::from_str_radix (invalid)", <T as Num>::from_str_radix("12 3", 10).is_err(), true);
-    // MulAdd: a*b + k whenever the exact result is representable
-    let ma = a.z().mul(&b.z()).add(&k.z());
-    if fits::<T>(&ma) && fits::<T>(&a.z().mul(&b.z())) {
-        obs.label("mul_add representable");
-        ck!("MulAdd::mul_add", oc(|| MulAdd::mul_add(a, b, k)), ret::<T>(&ma));
-        ck!("MulAddAssign::mul_add_assign", oc(|| { let mut x = a; MulAddAssign::mul_add_assign(&mut x, b, k); x }), ret::<T>(&ma));
-    }
-    // arithmetic forwarders equal the inherent methods
-    ck!("CheckedAdd", CheckedAdd::checked_add(&a, &b).map(|v| st(&v)), Int::checked_add(a, b).map(|v| st(&v)));
-    ck!("CheckedSub", CheckedSub::checked_sub(&a, &b).map(|v| st(&v)), Int::checked_sub(a, b).map(|v| st(&v)));
-    ck!("CheckedMul", CheckedMul::checked_mul(&a, &b).map(|v| st(&v)), Int::checked_mul(a, b).map(|v| st(&v)));
-    ck!("CheckedDiv", CheckedDiv::checked_div(&a, &b).map(|v| st(&v)), Int::checked_div(a, b).map(|v| st(&v)));
-    ck!("CheckedRem", CheckedRem::checked_rem(&a, &b).map(|v| st(&v)), Int::checked_rem(a, b).map(|v| st(&v)));
-    ck!("CheckedNeg", CheckedNeg::checked_neg(&a).map(|v| st(&v)), Int::checked_neg(a).map(|v| st(&v)));
-    ck!("CheckedShl", CheckedShl::checked_shl(&a, c.3).map(|v| st(&v)), Int::checked_shl(a, c.3).map(|v| st(&v)));
-    ck!("CheckedShr", CheckedShr::checked_shr(&a, c.3).map(|v| st(&v)), Int::checked_shr(a, c.3).map(|v| st(&v)));
-    ck!("WrappingAdd", st(&WrappingAdd::wrapping_add(&a, &b)), st(&Int::wrapping_add(a, b)));
-    ck!("WrappingSub", st(&WrappingSub::wrapping_sub(&a, &b)), st(&Int::wrapping_sub(a, b)));
-    ck!("WrappingMul", st(&WrappingMul::wrapping_mul(&a, &b)), st(&Int::wrapping_mul(a, b)));
-    ck!("WrappingNeg", st(&WrappingNeg::wrapping_neg(&a)), st(&Int::wrapping_neg(a)));
-    ck!("WrappingShl", st(&WrappingShl::wrapping_shl(&a, c.3)), st(&Int::wrapping_shl(a, c.3)));
-    ck!("WrappingShr", st(&WrappingShr::wrapping_shr(&a, c.3)), st(&Int::wrapping_shr(a, c.3)));
-    ck!("Saturating::saturating_add", st(&Saturating::saturating_add(a, b)), st(&Int::saturating_add(a, b)));
-    ck!("Saturating::saturating_sub", st(&Saturating::saturating_sub(a, b)), st(&Int::saturating_sub(a, b)));
-    ck!("SaturatingAdd", st(&SaturatingAdd::saturating_add(&a, &b)), st(&Int::saturating_add(a, b)));
-    ck!("SaturatingSub", st(&SaturatingSub::saturating_sub(&a, &b)), st(&Int::saturating_sub(a, b)));
-    ck!("SaturatingMul", st(&SaturatingMul::saturating_mul(&a, &b)), st(&Int::saturating_mul(a, b)));
-    ck!("OverflowingAdd", { let (v, f) = OverflowingAdd::overflowing_add(&a, &b); (st(&v), f) }, { let (v, f) = Int::overflowing_add(a, b); (st(&v), f) });
-    ck!("OverflowingSub", { let (v, f) = OverflowingSub::overflowing_sub(&a, &b); (st(&v), f) }, { let (v, f) = Int::overflowing_sub(a, b); (st(&v), f) });
-    let _ = w;
-    Ok(())
+    checks::siblings::nt_forwarders::<T>(Group::All, c, obs)
 }
 
 fn div_pairs(sh: Shape, signed: bool) -> BoxedStrategy<(Pat, Pat)> {
@@ -338,7 +269,7 @@ where
         ctx.run("i", ctx.budget(q(QUICK), FACTOR), root_cases(sh, true), eval_roots::<I>);
     }));
     jobs.push(Job::new(job_name::<U>("forwarders"), move |ctx| {
-        let s = || (gen::pattern_pair(sh), prop_oneof![gen::pattern(sh), (0u64..50).prop_map(move |x| Pat(Z::from_u64(x).to_le_wrapped(sh.bytes)))], gen::amount(sh)).prop_map(|((a, b), k, s)| (a, b, k, s));
+        let s = || forwarder_cases(sh);
         ctx.run("u", ctx.budget(q(QUICK / 2), FACTOR), s(), eval_forwarders::<U>);
         ctx.run("i", ctx.budget(q(QUICK / 2), FACTOR), s(), eval_forwarders::<I>);
     }));
